@@ -901,3 +901,19 @@ func (a *FnAnalysis) Conds() []string {
 	sort.Strings(out)
 	return out
 }
+
+// Fact is one branch fact: value V (stripped of negations / nil comparisons)
+// is nil (IsNil) or true, with truth value Val, on every path to the block.
+type Fact struct {
+	V     ssa.Value
+	IsNil bool
+	Val   bool
+}
+
+func (a *FnAnalysis) FactTriplesAt(b *ssa.BasicBlock) []Fact {
+	var out []Fact
+	for k, v := range a.mustIn[b] {
+		out = append(out, Fact{k.v, k.isnil, v})
+	}
+	return out
+}
